@@ -202,6 +202,18 @@ def r162(db, ctx):
     ok_counts = any('SymbolCount::count_symbols' in X.canon(norm(common.return_expr_single_path_allow(c))) and
                     norm(common.return_expr_single_path_allow(c))[2][0] == ('p', 2) for c in clos if common.return_expr_single_path_allow(c) is not None)
     if not ok_counts:
+        # loop form: for seq in sequences.iter() { counts.push(seq.count_symbols()) } — one count vector per sequence, in order
+        Rg = X.Rec(g)
+        for bi, t in g.calls():
+            if (g.callee_short(t) or '').endswith('Vec::push'):
+                v = norm(Rg.operand(t['args'][1]))
+                mm_ = m(('call~', 'SymbolCount::count_symbols', ('$s',)), v)
+                if mm_ is not None and mm_['$s'][0] == 'elem' and 'sequences' in X.canon(mm_['$s'][1]) or \
+                        (mm_ is not None and mm_['$s'][0] == 'elem' and any(x == ('p', 1) for x in X.walk(mm_['$s'][1]))):
+                    src = mm_['$s'][1]
+                    if not any(x[0] == 'call' and x[1].rsplit('::', 1)[-1] in ('take', 'skip', 'step_by', 'filter', 'rev') for x in X.walk(src)):
+                        ok_counts = True
+    if not ok_counts:
         probs.append('SamplerData::new does not fill counts with count_symbols(seq) per sequence')
     if probs:
         ctx.fail('R16.2', f, 'initial state', '; '.join(probs))
@@ -382,7 +394,17 @@ def r165(db, ctx):
     for c in clos:
         e = common.return_expr_single_path_allow(c)
         if e is not None and m(('bin', 'Lt', ('call~', 'StripedSequence::wrap', ('_',)), '$w'), norm(e)) is not None:
-            g = True
+            g = True       # any(|x| x.wrap() < width)
+        if e is not None and m(('bin', 'Ge', ('call~', 'StripedSequence::wrap', ('_',)), '$w'), norm(e)) is not None:
+            # !all(|x| x.wrap() >= width): the closure must be the argument of Iterator::all over all sequences and the panic on its false side
+            for bi, t in f.calls():
+                if (f.callee_short(t) or '').endswith('Iterator::all'):
+                    tb = t.get('target')
+                    sw = f.term(tb) if tb is not None else None
+                    if sw and sw['k'] == 'switch':
+                        false_t = [tg for v, tg in sw['arms'] if int(v) == 0]
+                        if false_t and G.diverges(f, false_t[0]):
+                            g = True
     pan = any((f.callee_short(t) or '').startswith(('core::panicking', 'std::rt::panic')) for _, t in f.calls())
     if not g:
         # loop form: a panic whose block is only reached when wrap(seq) < width for an element of the loop over all sequences
